@@ -20,12 +20,21 @@ def main():
         i = args.index("--seed")
         seed = args[i + 1]
         del args[i:i + 2]
+    repo = "/repo"
+    if "--repo" in args:
+        i = args.index("--repo")
+        repo = args[i + 1]
+        del args[i:i + 2]
+    import os
+    env = dict(os.environ)
+    if repo != "/repo":
+        env["VERIF_REPO"] = repo
     patch, props = args[0], args[1:]
-    st = subprocess.run(["git", "-C", "/repo", "status", "--porcelain", "--untracked-files=no"], capture_output=True, text=True).stdout
+    st = subprocess.run(["git", "-C", repo, "status", "--porcelain", "--untracked-files=no"], capture_output=True, text=True).stdout
     if st.strip():
         print("refusing: /repo has uncommitted changes:\n" + st)
         return 2
-    r = subprocess.run(["git", "-C", "/repo", "apply", "--whitespace=nowarn", patch], capture_output=True, text=True)
+    r = subprocess.run(["git", "-C", repo, "apply", "--whitespace=nowarn", patch], capture_output=True, text=True)
     if r.returncode != 0:
         print("patch does not apply:", r.stderr)
         return 2
@@ -33,7 +42,7 @@ def main():
     try:
         for p in props:
             try:
-                c = subprocess.run(["/verif/check", p, "--tier", tier, "--seed", seed], capture_output=True, text=True, cwd="/verif", timeout=2400)
+                c = subprocess.run(["/verif/check", p, "--tier", tier, "--seed", seed], capture_output=True, text=True, cwd="/verif", timeout=2400, env=env)
             except subprocess.TimeoutExpired:
                 subprocess.run(["pkill", "-f", "vh worker"])
                 results[p] = 99
@@ -46,9 +55,9 @@ def main():
             for l in lines[:12]:
                 print("   " + l[:300])
     finally:
-        subprocess.run(["git", "-C", "/repo", "apply", "-R", "--whitespace=nowarn", patch], capture_output=True)
-        subprocess.run(["git", "-C", "/repo", "checkout", "--", "."], capture_output=True)
-        st = subprocess.run(["git", "-C", "/repo", "status", "--porcelain", "--untracked-files=no"], capture_output=True, text=True).stdout
+        subprocess.run(["git", "-C", repo, "apply", "-R", "--whitespace=nowarn", patch], capture_output=True)
+        subprocess.run(["git", "-C", repo, "checkout", "--", "."], capture_output=True)
+        st = subprocess.run(["git", "-C", repo, "status", "--porcelain", "--untracked-files=no"], capture_output=True, text=True).stdout
         if st.strip():
             print("WARNING: /repo still modified:\n" + st)
     print("SUMMARY", " ".join("%s=%s" % (p, "CAUGHT" if rc == 1 else "missed" if rc == 0 else "error(%d)" % rc) for p, rc in results.items()))
